@@ -11,6 +11,7 @@ mkdir -p "$dir" /verif/.work/mut
 [ -d "$src" ] && cp -r "$src"/. "$dir"/
 rm -f "$dir"/fulltest.log
 log="/verif/.work/confirm-$id.txt"; : > "$log"
+patch="$dir/patch.diff"; [ -f "$dir/patch.rebased.diff" ] && patch="$dir/patch.rebased.diff"
 # 1. apply + build + existing tests
 /verif/tools/confirmseed.sh "$id" >> "$log" 2>&1
 # 2. demonstration with / without the change
@@ -18,7 +19,7 @@ demo(){ # $1 = with|without
   wt="/tmp/dm-$id-$1"
   git -C /repo worktree remove --force "$wt" >/dev/null 2>&1
   git -C /repo worktree add -q "$wt" HEAD || return 2
-  if [ "$1" = with ]; then git -C "$wt" apply "$dir/patch.diff" || { echo "$id demo-$1 APPLY-FAILED" >> "$log"; return 2; }; fi
+  if [ "$1" = with ]; then git -C "$wt" apply "$patch" || { echo "$id demo-$1 APPLY-FAILED" >> "$log"; return 2; }; fi
   ( cd "$dir" && timeout 900 sh ./run.sh "$wt" ) > "/verif/.work/mut/demo-$id-$1.out" 2>&1
   rc=$?
   echo "$id demo-$1 exit=$rc" >> "$log"
@@ -26,5 +27,5 @@ demo(){ # $1 = with|without
 }
 demo with; demo without
 # 3. the checks
-/verif/tools/runmut.sh "$id" "$dir/patch.diff" "$@" >> "$log" 2>&1
+/verif/tools/runmut.sh "$id" "$patch" "$@" >> "$log" 2>&1
 cat "$log" >> /verif/.work/seedmutD.txt
